@@ -1083,3 +1083,7 @@ VARIANTS += [
      "        with torch.no_grad():\n            next_actions = self.actor_target(next_states)\n            noise = actions.data.normal_(0, policy_noise)\n        q_value_1 = self.critic_1(states, actions)\n        q_value_2 = self.critic_2(states, actions)\n        with torch.no_grad():", "fire", "C08.10"),
     ("td3-noise-drawn-into-a-copy-ok", "agilerl/algorithms/td3.py", "            noise = actions.data.normal_(0, policy_noise)", "            noise = torch.empty_like(actions).normal_(0, policy_noise)", "silent", None),
 ]
+VARIANTS += [
+    ("rsnorm-n-step-batch-not-normalised", "agilerl/wrappers/agent.py", "        if n_experiences is not None and is_tensor_collection(n_experiences):\n            n_experiences[\"obs\"] = self.normalize_observation(n_experiences[\"obs\"])\n            n_experiences[\"next_obs\"] = self.normalize_observation(\n                n_experiences[\"next_obs\"]\n            )\n", "", "fire", "C08.12"),
+    ("rsnorm-n-step-batch-next-obs-only", "agilerl/wrappers/agent.py", "            n_experiences[\"obs\"] = self.normalize_observation(n_experiences[\"obs\"])\n", "", "fire", "C08.12"),
+]
